@@ -350,6 +350,8 @@ const SPEC: Spec = Spec {
         "LIN.on_return.ensures.sticky",
         "LIN.on_return.ensures.reject-return-without-invoke",
         "LIN.on_return.ensures.complete",
+        "LIN.on_invoke.ensures.event-step",
+        "LIN.on_return.ensures.event-step",
     ],
     obl_invalid: &["LIN.serialized_history.ensures.invalid-none", "LIN.is_consistent.ensures.invalid-inconsistent"],
     obl_sound: &[
